@@ -24,14 +24,14 @@ type lossyRole struct {
 
 // c03Exempt: sinks that use a lossy lookup result without returning an object for the key.
 var c03Exempt = map[string]string{
-	"main.(*MultiEpoch).handleGetBlock$":              "prefetcher closures: offsets feed a read-ahead only; objects are cached under the CID read from the section itself (C03.R2)",
-	"main.(*MultiEpoch).GetBlock$":                    "prefetcher closures of the gRPC GetBlock: same as handleGetBlock",
-	"main.(*MultiEpoch).apiHandler":                   "REST helper returning a CID string; not one of the operations named by C03",
+	"main.(*MultiEpoch).handleGetBlock$":               "prefetcher closures: offsets feed a read-ahead only; objects are cached under the CID read from the section itself (C03.R2)",
+	"main.(*MultiEpoch).GetBlock$":                     "prefetcher closures of the gRPC GetBlock: same as handleGetBlock",
+	"main.(*MultiEpoch).apiHandler":                    "REST helper returning a CID string; not one of the operations named by C03",
 	"main.(*MultiEpoch).findEpochNumberFromSignature$": "existence probe choosing the epoch; the chosen epoch's GetTransaction carries the re-check obligation",
-	"main.VerifyIndex_cid2offset":                     "offline `verify-index` command: compares the lookup result with the value recomputed from the CAR; answers no request",
-	"main.VerifyIndex_sig2cid$":                       "offline `verify-index` command (see above)",
-	"main.VerifyIndex_slot2cid$":                      "offline `verify-index` command (see above)",
-	"main.verifyAllIndexes":                           "offline `verify-index all` command (see above)",
+	"main.VerifyIndex_cid2offset":                      "offline `verify-index` command: compares the lookup result with the value recomputed from the CAR; answers no request",
+	"main.VerifyIndex_sig2cid$":                        "offline `verify-index` command (see above)",
+	"main.VerifyIndex_slot2cid$":                       "offline `verify-index` command (see above)",
+	"main.verifyAllIndexes":                            "offline `verify-index all` command (see above)",
 }
 
 func c03ExemptReason(key string) (string, bool) {
@@ -402,6 +402,43 @@ func protectedReturn(r *core.Report, f *core.Func, rn *core.GNode, kobj types.Ob
 		return true, why, nil
 	} else if why != "" {
 		return false, why, nil
+	}
+	// re-check delegated to a helper: `if err := check(fetched, key); err != nil { return err }` - the success return is
+	// dominated by the nil outcome of a call that receives the key and a lookup-derived value, and every non-error return of
+	// that helper is itself protected by the comparison
+	for _, fact := range g.FactsAt(rn) {
+		if fact.Tag != nil || !g.FactFresh(fact, rn) {
+			continue
+		}
+		x, isNil, ok := core.NilCompare(info, fact.Expr)
+		if !ok || isNil != fact.Truth { // need: err == nil known
+			continue
+		}
+		eo := core.ObjOf(info, x)
+		if eo == nil || !core.IsErrorType(eo.Type()) {
+			continue
+		}
+		var call *ast.CallExpr
+		ast.Inspect(f.Body, func(n ast.Node) bool {
+			as, ok := n.(*ast.AssignStmt)
+			if !ok || len(as.Rhs) != 1 || as.Pos() > fact.Expr.Pos() {
+				return true
+			}
+			for _, l := range as.Lhs {
+				if core.ObjOf(info, l) == eo {
+					if c, ok := core.Unparen(as.Rhs[0]).(*ast.CallExpr); ok {
+						call = c // the last assignment before the test
+					}
+				}
+			}
+			return true
+		})
+		if call == nil {
+			continue
+		}
+		if ok2, why := delegated(r, f, call, keyAliases, taint, needNF, depth, keyNonNil); ok2 {
+			return true, "success return dominated by the nil outcome of the checking helper: " + why, nil
+		}
 	}
 	// accumulated result: every statement that stores lookup-derived data into the returned variable is protected
 	res := returnResults(rn)
